@@ -27,7 +27,7 @@ CATALOGUES = {
         renames=[("A", "D"), ("A", "B"), ("B", "p1"), ("p1", "q"), ("l1", "l2"), ("C", "zz"), ("A", "4"), ("3", "5"),
                  ("l1", "6"), ("p1", "9"), ("A", "*"), ("p1", "*"), ("B", "a b")],
         tagedits=[("A", "xx:i:5"), ("B", "LN:i:7"), ("p1", "yy:Z:a b"), ("l1", "RC:i:3")],
-        deltags=[("l1", "ID:Z:l1"), ("c1", "ID:Z:c1")],
+        deltags=[("l1", "ID:Z:l1"), ("c1", "ID:Z:c1")], addcs=["S|A|ACGT", "L|A|+|C|+|1M", "C|A|+|B|+|1|2M", "P|p2|B-,A-|*"],
         setfs=[("S|C|*", 2, "ACG"), ("S|A|ACGT", 2, "*"), ("L|A|+|B|+|2M1D1M", 5, "*"), ("L|A|+|C|+|1M", 2, "-"),
                ("L|A|+|C|+|1M", 3, "B"), ("C|A|+|B|+|1|2M", 5, "0"), ("C|A|+|B|+|1|2M", 6, "*"), ("C|A|+|B|+|1|2M", 2, "-"),
                ("C|A|+|B|+|1|2M", 1, "C"), ("P|p1|A+,B+|2M1D1M", 3, "*"), ("P|p2|B-,A-|*", 2, "A+,B+"),
@@ -56,6 +56,7 @@ CATALOGUES = {
                  ("a", "8"), ("e1", "9"), ("2", "11"), ("a", "*"), ("e1", "*"), ("e4", "*"), ("g1", "*"), ("o1", "*"),
                  ("u1", "*"), ("u2", "*"), ("b", "a b"), ("e2", "e 2")],
         tagedits=[("a", "xx:i:5"), ("e1", "yy:Z:a b"), ("u1", "yy:i:9"), ("o1", "xx:i:2"), ("g1", "zz:Z:q")],
+        addcs=["S|b|6|*", "E|*|a+|b+|2|4$|0|2|*", "F|a|x+|0|2|0|2|*", "O|o1|a+ b+", "X|custom|1"],
         setfs=[("S|a|4|ACGT", 3, "*"), ("S|b|6|*", 2, "7"), ("E|e1|a+|b+|2|4$|0|2|2M", 8, "*"), ("E|e1|a+|b+|2|4$|0|2|2M", 4, "1"),
                ("E|e1|a+|b+|2|4$|0|2|2M", 2, "a-"), ("E|e2|a+|b-|0|4$|1|5|*", 8, "4M"), ("G|g1|a+|b-|10|*", 4, "7"),
                ("G|g1|a+|b-|10|*", 5, "3"), ("G|g1|a+|b-|10|*", 3, "c+"), ("F|a|x+|0|2|0|2|*", 2, "y+"),
@@ -171,6 +172,8 @@ def build_ops(cat):
     for ln in cat["lines"]:
         if ln[0] in "LCEGFOUP":
             ops.append(dict(k="disc", text=text_of(ln), id="", id2=""))
+    for ln in cat.get("addcs", []):
+        ops.append(dict(k="addc", text=text_of(ln), id="", id2=""))
     for ln, pos, val in cat.get("setfs", []):
         f = ln.split("|")
         new = f[:pos] + [val.lstrip("!")] + f[pos + 1:]
@@ -242,7 +245,17 @@ def find_named(gfa, ident):
 def apply_op(gfapy, gfa, op, version):
     k = op["k"]
     if k == "add":
-        gfa.add_line(op["text"])
+        if op.get("inst"):
+            # a Line instance instead of text: same specified action
+            gfa.add_line(gfapy.Line(op["text"], vlevel=gfa.vlevel, dialect=gfa.dialect))
+        else:
+            gfa.add_line(op["text"])
+    elif k == "addc":
+        # an instance that already belongs to this Gfa is offered again
+        o = find_instance(gfa, op["text"], version)
+        if o is None:
+            raise gfapy.NotFoundError("no such line")
+        gfa.add_line(o)
     elif k == "load":
         return load_entry(gfapy, op, gfa)
     elif k == "rsc":
@@ -655,6 +668,7 @@ def doc_jobs(catname, n, nmut, seed, vlevel=1, kind="doc", cfgversion=None):
         h = list(doc)
         for _ in range(nmut):
             h.append(rnd.choice(others) if rnd.random() < 0.6 else rnd.choice(adds))
+        h = [dict(o, inst=True) if o["k"] == "add" and rnd.random() < 0.3 else o for o in h]
         jobs.append(dict(id="%s-%s-%d" % (kind, catname, i), kind=kind,
                          cfg=dict(version=cfgversion or cat["version"], vlevel=vlevel),
                          ops=h, universe=universe))
